@@ -501,6 +501,32 @@ def instantiate_fn(fs, item, em):
 
     if sh.has_body:
         lo, hi = sh.body_open, sh.body_close
+        # ---- automatic rule R-assert-eq: assert_eq!(A, B) -> assert!((A) == (B))  (Verus has no assert_eq!)
+        k = lo
+        while k + 2 < hi:
+            if toks[k].kind == "ident" and toks[k].text in ("assert_eq", "assert_ne") and toks[k + 1].text == "!" and toks[k + 2].text == "(":
+                close = match_close(toks, k + 2)
+                # top-level commas
+                commas = []
+                j = k + 3
+                while j < close:
+                    if toks[j].kind == "punct" and toks[j].text in OPEN:
+                        j = match_close(toks, j) + 1
+                        continue
+                    if toks[j].text == ",":
+                        commas.append(j)
+                    j += 1
+                if commas:
+                    a_txt = text[toks[k + 3].start:toks[commas[0] - 1].end]
+                    b_end = commas[1] - 1 if len(commas) > 1 else close - 1
+                    b_txt = text[toks[commas[0] + 1].start:toks[b_end].end]
+                    op = "==" if toks[k].text == "assert_eq" else "!="
+                    edits.append((toks[k].start, toks[close].end, "assert!((%s) %s (%s))" % (a_txt, op, b_txt)))
+                    log.append("R-assert-eq: `%s!(%s, %s)` rewritten to `assert!((..) %s (..))` (line %d)" % (
+                        toks[k].text, a_txt, b_txt, op, item.line0 + text.count("\n", 0, toks[k].start)))
+                k = close + 1
+                continue
+            k += 1
         # ---- closures
         cls = find_closures(toks, lo, hi)
         for n, spec in sorted(fs.closures.items(), key=lambda kv: str(kv[0])):
@@ -795,6 +821,8 @@ def instantiate_fn(fs, item, em):
     if fs.rename:
         nm = toks[sh.fn_k + 1]
         edits.append((nm.start, nm.end, fs.rename))
+        if sh.fn_k == 0 or toks[sh.fn_k - 1].text != "pub":
+            edits.append((toks[sh.fn_k].start, toks[sh.fn_k].start, "pub "))
         log.append("R-rename: fn `%s` of `%s` emitted as free function `%s` (Verus rejects recursion through a trait impl)" % (fs.name, fs.header, fs.rename))
     out = apply_edits(text, edits)
     if contract_marker:
